@@ -157,4 +157,20 @@ def Shape (ctx : PRef → Option (List String)) (p : PModule) : Bool :=
   decide ((p.signals.filter (fun sw => isPort p sw.1)).map (·.1) = p.ports.map (·.1)) &&
   p.instances.all (instOK ctx p.signals)
 
+/-- The other layout an exporter may choose for the signal list — the ports' signals first, in port order, the internal signals
+    after them (the property fixes the port list, not the place of the internal signals): `exportModulePF` writes it, `ShapePF`
+    describes it. Which of the two the code at hand uses is read off a probe module on every run. -/
+def exportModulePF (h : HModule) : Except Err PModule :=
+  match exportPorts h.ports, exportInsts h.instances with
+  | .ok ports, .ok insts => .ok ⟨h.name, (h.ports ++ h.signals).map (fun s => (s.name, s.width)), ports, insts⟩
+  | .error e, _ => .error e
+  | _, .error e => .error e
+
+def ShapePF (ctx : PRef → Option (List String)) (p : PModule) : Bool :=
+  decide ((p.signals.map (·.1)).Nodup) && decide ((p.ports.map (·.1)).Nodup) &&
+  p.ports.all (fun q => decide (q.2 ∈ protoDirs)) &&
+  decide (p.signals = p.signals.filter (fun sw => isPort p sw.1) ++ p.signals.filter (fun sw => !isPort p sw.1)) &&
+  decide ((p.signals.filter (fun sw => isPort p sw.1)).map (·.1) = p.ports.map (·.1)) &&
+  p.instances.all (instOK ctx p.signals)
+
 end Hdl21.RoundTrip
